@@ -576,6 +576,46 @@ fn scaled_sweep(ctx: &Ctx) {
     }
 }
 
+/// Names too long to be hashed (the name hash packs 12 characters of 5 bits) that END in the name of
+/// an element with special tokenisation: they are ordinary unknown elements. Every first letter x
+/// padding character x total length around the limit.
+fn long_name_sweep(ctx: &Ctx) {
+    const SPECIAL: &[&str] = &["title", "textarea", "script", "style", "xmp", "plaintext", "iframe", "noembed", "noframes", "select", "template", "frameset", "svg", "math", "p", "br"];
+    const PADS: &[char] = &['1', '2', '6', 'a', 'p', 'z'];
+    let lens: &[usize] = if ctx.quick() { &[12, 13, 14] } else { &[11, 12, 13, 14, 15, 16, 17, 25] };
+    let mut names: Vec<String> = vec![];
+    for t in SPECIAL {
+        for first in 'a'..='z' {
+            for pad in PADS {
+                for &len in lens {
+                    if len < t.len() + 1 {
+                        continue;
+                    }
+                    names.push(format!("{first}{}{t}", pad.to_string().repeat(len - 1 - t.len())));
+                }
+            }
+        }
+    }
+    par_for(names.len(), 16, |i| {
+        if ctx.over_time() {
+            return;
+        }
+        let n = &names[i];
+        for doc in [format!("<{n}><b>x</b></{n}>y"), format!("<select><{n}>x</select>")] {
+            if let Some(msg) = check_input(doc.as_bytes(), Depth::L0, Some(ctx)) {
+                report(ctx, doc.as_bytes(), msg, None);
+            }
+            ctx.states.insert(digest(doc.as_bytes()));
+        }
+        if i % 1009 == 7 {
+            ctx.sample(json!({"space": "long names ending in a special element name", "name": n}));
+        }
+    });
+    if !ctx.capped.load(std::sync::atomic::Ordering::Relaxed) {
+        ctx.level_done(&format!("{} names of {:?} characters ending in the name of a special element (first letter a..z x 6 padding characters) x 2 documents vs the WHATWG reference", names.len(), lens));
+    }
+}
+
 fn contains_ci(hay: &[u8], needle: &[u8]) -> bool {
     hay.windows(needle.len()).any(|w| w.eq_ignore_ascii_case(needle))
 }
@@ -735,6 +775,7 @@ fn g_sweep(ctx: &Ctx, name: &str, max_nodes: usize, depth: Depth) {
 pub fn run_check(ctx: &Ctx) -> i32 {
     let k = F.len();
     scaled_sweep(ctx);
+    long_name_sweep(ctx);
     if ctx.quick() {
         soup_sweep(ctx, "F<=3 x 7 capture sets x strict{t,f} x L0,L1 + public handlers", Space::Frags { k, max: 3 }, Depth::L1);
         soup_sweep(ctx, "Fcore<=4 x 7 capture sets x strict{t,f} x L0 + public handlers", Space::Frags { k: F_CORE, max: 4 }, Depth::L0);
